@@ -384,5 +384,20 @@ func (db *DB) OpenTransaction() (*Transaction, error) {
 	tr.mem.incref()
 	verifEvent(204, 3, 0)
 	db.tr = tr
+	// Close discards the open transaction it finds after closing closeC. If
+	// closeC was closed before db.tr was published Close may have missed the
+	// transaction and would wait for the write lock until its owner discards
+	// it: give the transaction up instead of returning it on a closed DB.
+	select {
+	case <-db.closeC:
+		tr.lk.Lock()
+		if !tr.closed {
+			tr.discard()
+			tr.setDone()
+		}
+		tr.lk.Unlock()
+		return nil, ErrClosed
+	default:
+	}
 	return tr, nil
 }
